@@ -163,63 +163,86 @@ Definition null_move (rec : Position -> SS -> Z -> Z -> Z -> Z -> bool -> option
     end
   else Some (None, s).
 
+(* negamax.rs in three stages, the recursive calls abstracted (rec = negamax on less fuel, qrec = qsearch) *)
+Section Body.
+Variable rec : Position -> SS -> Z -> Z -> Z -> Z -> bool -> option (Z * SS).
+Variable qrec : Position -> Stats -> Z -> Z -> Z -> option (Z * Stats).
+
+(* after the move loop: mate / stalemate score, or table store and best move *)
+Definition nm_finish (p : Position) (alpha_orig beta ply depth : Z) (in_chk : bool)
+           (best : Z) (bm : option Mv) (s : SS) : option (Z * SS) :=
+  match bm with
+  | None => Some ((if in_chk then - MATE_SCORE + ply else DRAW_SCORE), s)
+  | Some bmv =>
+    let flag := if best <=? alpha_orig then 2%N else if beta <=? best then 1%N else 0%N in
+    match tt_add (ss_tt s) (hash p)
+                 (mkTT (hash p) (m_from bmv) (m_to bmv) (m_promo bmv) best depth flag) with
+    | None => None
+    | Some tt' => Some (best, mkSS (ss_hist s) tt' (set_best (ss_stats s) (Some bmv)))
+    end
+  end.
+
+(* after the pruning tests: null move, move loop, then nm_finish *)
+Definition nm_moves (p : Position) (s : SS) (alpha_orig alpha beta ply depth : Z)
+           (in_chk is_root can_null : bool) (ttmove : option Mv) : option (Z * SS) :=
+  match null_move rec p s is_root can_null in_chk beta ply depth with
+  | None => None
+  | Some (Some cut, s) => Some (cut, s)
+  | Some (None, s) =>
+    match n_loop rec p in_chk beta ply depth (sort_n p (legal_moves p) ttmove) 0 s alpha (- INF) None with
+    | None => None
+    | Some r => nm_finish p alpha_orig beta ply depth in_chk (snd (fst (fst r))) (snd (fst r)) (snd r)
+    end
+  end.
+
+(* horizon, stop test, rule draws, reverse futility pruning *)
+Definition nm_prune (p : Position) (s : SS) (alpha_orig alpha beta ply depth : Z)
+           (in_chk is_root is_pv can_null : bool) (ttmove : option Mv) : option (Z * SS) :=
+  if depth <=? 0 then
+    match qrec p (ss_stats s) alpha beta ply with
+    | None => None
+    | Some (v, st) => Some (v, with_stats s st)
+    end
+  else if stopf (ss_stats s) && negb (is_root && (st_depth (ss_stats s) <=? 1)) then Some (0, s)
+  else
+    let is_50 := 100 <=? halfmoves p in
+    let is_3 := (if is_root then 3 else 2) <=?
+                count_rep (Z.to_nat (halfmoves p + 1)) (ss_hist s) (hash p) true in
+    if (is_50 || is_3) && negb is_root then Some (DRAW_SCORE, s)
+    else
+      let static_eval := eval p in
+      if negb is_pv && negb in_chk && (depth <? RFP_DEPTH) && (beta <=? static_eval - RFP_MARGIN * depth)
+      then Some (static_eval - RFP_MARGIN * depth, s)
+      else nm_moves p s alpha_orig alpha beta ply depth in_chk is_root can_null ttmove.
+
+(* table probe *)
+Definition nm_probe (p : Position) (s : SS) (tte : TTEntry) (alpha beta ply depth : Z)
+           (in_chk is_root is_pv can_null : bool) : option (Z * SS) :=
+  let hit := (e_hash tte =? hash p)%N in
+  let ttmove := if hit then Some (mkMv (e_from tte) (e_to tte) (e_promo tte)) else None in
+  let usable := hit && (depth <=? e_depth tte) && negb is_root && negb is_pv in
+  let alpha' := if usable && (e_flag tte =? 1)%N then Z.max alpha (e_score tte) else alpha in
+  let beta' := if usable && (e_flag tte =? 2)%N then Z.min beta (e_score tte) else beta in
+  if usable && (e_flag tte =? 0)%N then Some (e_score tte, s)
+  else if usable && (beta' <=? alpha') then Some (e_score tte, s)
+  else nm_prune p s alpha alpha' beta' ply depth in_chk is_root is_pv can_null ttmove.
+
+Definition nm_body (p : Position) (s : SS) (alpha beta ply depth : Z) (can_null : bool) : option (Z * SS) :=
+  let in_chk := in_check p in
+  let s := with_stats s (set_seld (ss_stats s) (Z.max (st_seldepth (ss_stats s)) ply)) in
+  match tt_poll (ss_tt s) (hash p) with
+  | None => None
+  | Some tte =>
+    nm_probe p s tte alpha beta ply (if in_chk then depth + 1 else depth)
+             in_chk (ply =? 0) (negb (beta =? alpha + 1)) can_null
+  end.
+End Body.
+
 Fixpoint negamax (fuel : nat) (p : Position) (s : SS) (alpha beta ply depth : Z) (can_null : bool)
   : option (Z * SS) :=
   match fuel with
   | O => None
-  | S f =>
-    let alpha_orig := alpha in
-    let in_chk := in_check p in
-    let is_root := ply =? 0 in
-    let is_pv := negb (beta =? alpha + 1) in
-    let s := with_stats s (set_seld (ss_stats s) (Z.max (st_seldepth (ss_stats s)) ply)) in
-    let depth := if in_chk then depth + 1 else depth in
-    match tt_poll (ss_tt s) (hash p) with
-    | None => None
-    | Some tte =>
-      let hit := (e_hash tte =? hash p)%N in
-      let ttmove := if hit then Some (mkMv (e_from tte) (e_to tte) (e_promo tte)) else None in
-      let usable := hit && (depth <=? e_depth tte) && negb is_root && negb is_pv in
-      let exact_cut := usable && (e_flag tte =? 0)%N in
-      let alpha := if usable && (e_flag tte =? 1)%N then Z.max alpha (e_score tte) else alpha in
-      let beta := if usable && (e_flag tte =? 2)%N then Z.min beta (e_score tte) else beta in
-      if exact_cut then Some (e_score tte, s)
-      else if usable && (beta <=? alpha) then Some (e_score tte, s)
-      else if depth <=? 0 then
-        match qsearch f p (ss_stats s) alpha beta ply with
-        | None => None
-        | Some (v, st) => Some (v, with_stats s st)
-        end
-      else if stopf (ss_stats s) && negb (is_root && (st_depth (ss_stats s) <=? 1)) then Some (0, s)
-      else
-      let is_50 := 100 <=? halfmoves p in
-      let is_3 := (if is_root then 3 else 2) <=?
-                  count_rep (Z.to_nat (halfmoves p + 1)) (ss_hist s) (hash p) true in
-      if (is_50 || is_3) && negb is_root then Some (DRAW_SCORE, s)
-      else
-      let static_eval := eval p in
-      if negb is_pv && negb in_chk && (depth <? RFP_DEPTH) && (beta <=? static_eval - RFP_MARGIN * depth)
-      then Some (static_eval - RFP_MARGIN * depth, s)
-      else
-      match null_move (negamax f) p s is_root can_null in_chk beta ply depth with
-      | None => None
-      | Some (Some cut, s) => Some (cut, s)
-      | Some (None, s) =>
-        let moves := sort_n p (legal_moves p) ttmove in
-        match n_loop (negamax f) p in_chk beta ply depth moves 0 s alpha (- INF) None with
-        | None => None
-        | Some (alpha, best, None, s) =>
-          Some ((if in_chk then - MATE_SCORE + ply else DRAW_SCORE), s)
-        | Some (alpha, best, Some bmv, s) =>
-          let flag := if best <=? alpha_orig then 2%N else if beta <=? best then 1%N else 0%N in
-          match tt_add (ss_tt s) (hash p)
-                       (mkTT (hash p) (m_from bmv) (m_to bmv) (m_promo bmv) best depth flag) with
-          | None => None
-          | Some tt' => Some (best, mkSS (ss_hist s) tt' (set_best (ss_stats s) (Some bmv)))
-          end
-        end
-      end
-    end
+  | S f => nm_body (negamax f) (qsearch f) p s alpha beta ply depth can_null
   end.
 
 (* ---- root.rs *)
